@@ -45,6 +45,15 @@ func genCase(t *rapid.T) copyx.Case {
 	c.Root = rapid.SampledFrom(present).Draw(t, "start")
 	c.API = rapid.SampledFrom([]string{"extcopygraph", "extcopygraph", "extcopy"}).Draw(t, "api")
 	c.Depth = rapid.SampledFrom([]int{0, 0, 1, 2, 3, 99}).Draw(t, "depth")
+	if rapid.IntRange(0, 3).Draw(t, "prePopulate") == 0 {
+		// the destination already holds a link-closed part of the source (possibly an
+		// ancestor of the start node together with everything below it)
+		universe := map[int]bool{}
+		for _, id := range present {
+			universe[id] = true
+		}
+		c.Pre = copyx.GenPre(t, d, universe, c.Root)
+	}
 	switch rapid.IntRange(0, 4).Draw(t, "filterMode") {
 	case 0, 1:
 	case 2:
@@ -317,9 +326,18 @@ func unionReach(d *gen.DAG, roots map[int]int, maxDist int) map[int]bool {
 func genFan(t *rapid.T) copyx.Case {
 	c := genCase(t)
 	c.Specs = fanSpecs(t, false)
+	c.Pre = nil // drawn for the graph that was just replaced
 	c.Root = 2
 	if rapid.IntRange(0, 2).Draw(t, "fanStartElsewhere") == 0 {
 		c.Root = rapid.IntRange(0, len(c.Specs)-1).Draw(t, "fanStart")
+	}
+	if rapid.IntRange(0, 3).Draw(t, "fanPre") == 0 {
+		d := gen.Build(c.Specs)
+		universe := map[int]bool{}
+		for _, id := range d.CanonIDs() {
+			universe[id] = true
+		}
+		c.Pre = copyx.GenPre(t, d, universe, c.Root)
 	}
 	return c
 }
@@ -457,6 +475,13 @@ func runCase(c copyx.Case) (res vt.Result, fail *vt.Fail) {
 	if pf != nil {
 		return res, pf
 	}
+	prePop := map[int]bool{}
+	for _, p := range c.Pre {
+		prePop[d.Nodes[p].Canon] = true
+	}
+	if len(c.Pre) > 0 {
+		res.Classes = append(res.Classes, "destination-pre-populated")
+	}
 	judge := func(up map[int]int) *vt.Fail {
 		must := unionReach(d, up, 0)
 		if c.Depth > 0 {
@@ -477,7 +502,7 @@ func runCase(c copyx.Case) (res vt.Result, fail *vt.Fail) {
 		if c.Depth > 0 || filtered {
 			allowed := unionReach(d, up, c.Depth)
 			for id := range present {
-				if !allowed[id] {
+				if !allowed[id] && !prePop[id] {
 					why := "outside the graphs of ancestors at most Depth predecessor steps away"
 					if filtered {
 						why = "only reachable through predecessors the filter rejects (or beyond Depth)"
